@@ -1,0 +1,8 @@
+//go:build verif
+// +build verif
+
+package cbor
+
+// VerifNumRead reports the number of input bytes the decoder has consumed so
+// far.  Verification hook: compiled only with the "verif" build tag.
+func (d *Decoder) VerifNumRead() int { return d.r.NumRead() }
